@@ -18,7 +18,10 @@ import time
 
 VERIF = os.path.dirname(os.path.dirname(os.path.abspath(__file__)))
 SPEC = os.path.join(VERIF, "spec")
-HARNESS = os.path.join(VERIF, "harness")
+HARNESS = os.environ.get("VERIF_HARNESS") or os.path.join(VERIF, "harness")  # override: scratch copy for seed tests
+# VERIF_OUT redirects work/, evidence/ and replays/ (seed tests against a scratch tree must not
+# overwrite the evidence of the registered runs)
+OUT = os.environ.get("VERIF_OUT") or VERIF
 TLA_CP = "/opt/veriftools/tla/tla2tools.jar:/opt/veriftools/tla/CommunityModules-deps.jar"
 
 
@@ -74,11 +77,11 @@ class Check:
         self.seed = seed
         self.replay = replay
         self.t0 = time.time()
-        self.work = os.path.join(VERIF, "work", prop)
+        self.work = os.path.join(OUT, "work", prop)
         shutil.rmtree(self.work, ignore_errors=True)
         os.makedirs(self.work, exist_ok=True)
-        os.makedirs(os.path.join(VERIF, "replays"), exist_ok=True)
-        os.makedirs(os.path.join(VERIF, "evidence"), exist_ok=True)
+        os.makedirs(os.path.join(OUT, "replays"), exist_ok=True)
+        os.makedirs(os.path.join(OUT, "evidence"), exist_ok=True)
         self.cov = {
             "states": 0,
             "transitions": 0,
@@ -433,14 +436,14 @@ class Check:
             for cls, why, payload in self.violations:
                 groups.setdefault(json.dumps(cls, sort_keys=True), []).append((why, payload))
             for i, (cls, items) in enumerate(sorted(groups.items())):
-                path = os.path.join(VERIF, "replays", f"{self.prop}-{i}.json")
+                path = os.path.join(OUT, "replays", f"{self.prop}-{i}.json")
                 json.dump({"property": self.prop, "class": json.loads(cls), "count": len(items),
                            "tier": self.tier, "seed": self.seed,
                            "items": [{"why": w, "case": p} for w, p in items[:20]]}, open(path, "w"), indent=1)
                 log(f"VIOLATION property={self.prop} replay={path}")
                 log(f"  class={cls} count={len(items)} first: {items[0][0][:400]}")
         if not self.replay:  # a replay run re-examines recorded cases only; it is not evidence
-            json.dump(ev, open(os.path.join(VERIF, "evidence", f"{self.prop}.json"), "w"), indent=1)
+            json.dump(ev, open(os.path.join(OUT, "evidence", f"{self.prop}.json"), "w"), indent=1)
         log(f"[done] {self.prop} tier={self.tier} violations={len(self.violations)} "
             f"known={len(self.known_hits)} wall={wall:.1f}s")
         return rc
